@@ -115,14 +115,24 @@ func (iq *IndexQuery) FetchCollection(db *badger.DB) ([]string, error) {
 		opts.Reverse = iq.Reverse
 		it := txn.NewIterator(opts)
 		defer it.Close()
-		seek := queryPrefix
 		if iq.Reverse {
 			// When iterating in reverse, Seek finds the largest key less than
-			// or equal to the seek key. Append 0xFF to start after the last
-			// key having the prefix, instead of before the first.
-			seek = append(append(make([]byte, 0, qplen+1), queryPrefix...), 0xFF)
+			// or equal to the seek key. Seek to the smallest key greater than
+			// every key having the prefix, to start at the last key having
+			// the prefix instead of before the first.
+			if seek := prefixUpperBound(queryPrefix); seek != nil {
+				it.Seek(seek)
+				if it.Valid() && !it.ValidForPrefix(queryPrefix) {
+					// An entry matching the upper bound itself
+					it.Next()
+				}
+			} else {
+				it.Rewind()
+			}
+		} else {
+			it.Seek(queryPrefix)
 		}
-		for it.Seek(seek); it.ValidForPrefix(queryPrefix); it.Next() {
+		for ; it.ValidForPrefix(queryPrefix); it.Next() {
 			k := it.Item().Key()
 			idx := bytes.LastIndexByte(k, idSeparator)
 			if idx < 0 {
@@ -161,4 +171,17 @@ func (iq *IndexQuery) FetchCollection(db *badger.DB) ([]string, error) {
 	}
 
 	return result, nil
+}
+
+// prefixUpperBound returns the smallest key that is greater than every key
+// having the prefix, or nil if no such key exists.
+func prefixUpperBound(prefix []byte) []byte {
+	for i := len(prefix) - 1; i >= 0; i-- {
+		if prefix[i] != 0xFF {
+			ub := append(make([]byte, 0, i+1), prefix[:i+1]...)
+			ub[i]++
+			return ub
+		}
+	}
+	return nil
 }
